@@ -23,8 +23,9 @@ PLAN = {
     "C05": {"quick": ["struct3", "struct4s"], "thorough": ["struct3", "struct4s", "struct4", "seg13"]},
     "C06": {"quick": ["struct3", "struct4s"], "thorough": ["struct3", "struct4s", "struct4", "seg13"]},
     "C07": {"quick": ["seg13", "seg3d"], "thorough": ["seg13", "seg22", "seg3d", "seg13n"]},
-    "C08": {"quick": ["seg13", "seg3d"], "thorough": ["seg13", "seg22", "seg3d", "seg13n"]},
-    "C09": {"quick": ["seg13", "seg3d"], "thorough": ["seg13", "seg22", "seg3d", "seg13n"]},
+    "C08": {"quick": ["seg13", "seg3d", "feat13"], "thorough": ["seg13", "seg22", "seg3d", "seg13n", "feat13", "feat22"]},
+    # seg13z: tracks rebuilt from the graph, IoU enabled in bulk at that point; feat13: enable / disable at any point
+    "C09": {"quick": ["seg13", "seg3d", "seg13z", "feat13"], "thorough": ["seg13", "seg22", "seg3d", "seg13n", "seg13z", "feat13", "feat22"]},
     "C10": {"quick": ["featns", "feat13"], "thorough": ["featns", "feat13", "feat22"]},
     "C11": {"quick": ["struct3", "struct4s", "struct3p", "seg13"], "thorough": ["struct3", "struct4s", "struct3p", "struct3c", "struct4", "seg13", "seg22"]},
     "C20": {"quick": ["struct3", "struct4s", "seg13"], "thorough": ["struct3", "struct4s", "struct4", "seg13"]},
